@@ -222,11 +222,14 @@ def main(argv=None):
     # bounded stand-ins for the parts of the property no contract decides: run on every run, labelled bounded
     standin_results, standin_found = replay_mod.standin_search(prop, args.repo)
     P = dict(P, _standin=standin_results)
+    for sr in standin_results:
+        if sr.get("known_finding_witnesses"):
+            for f in findings:
+                if f.get("property") == prop and f.get("obligation") == "%s/bounded-standin/%s" % (prop, sr["family"]):
+                    known_lines.append("KNOWN-FINDING: property=%s %s -- %s" % (prop, f["obligation"], f.get("what", "")))
     if standin_found is not None:
-        kf = registry.match_finding(findings, prop, standin_found[1])
-        if kf:
-            known_lines.append("KNOWN-FINDING: property=%s %s -- %s" % (prop, standin_found[1], kf.get("what", "")))
-        else:
+        # witnesses of recorded findings were skipped by the search itself (witness_messages): whatever it found is new
+        if True:
             vio_lines.append("VIOLATION property=%s replay=%s obligation=%s (bounded stand-in: failing input on the real code)" % (prop, standin_found[0], standin_found[1]))
             real.append((standin_found[1], dict(message="bounded stand-in found a failing input", detail={}, unit=None)))
     # evidence
